@@ -229,6 +229,7 @@ def check_all(ctx, P):
     from . import polybounds
     ctx.guard("bounds", "poly1305", lambda: polybounds.check(ctx, P))
     ctx.guard("poly-identity", "poly1305", lambda: polybounds.check_identity(ctx, P))
+    ctx.guard("shape-eval", "poly1305::input", lambda: polybounds.check_input_shapes(ctx, P))
 
 
 def run(ctx):
@@ -242,4 +243,5 @@ def run(ctx):
     from . import polybounds
     ctx.guard("bounds", "poly1305", lambda: polybounds.check(ctx, P))
     ctx.guard("poly-identity", "poly1305", lambda: polybounds.check_identity(ctx, P))
+    ctx.guard("shape-eval", "poly1305::input", lambda: polybounds.check_input_shapes(ctx, P))
     ctx.not_decided += ["the tag as a number beyond: radix-weight consistency of every product / carry, limb bounds (inductive), absence of overflow, digit reduction before the repack, clamp and select rules"]
